@@ -109,6 +109,7 @@ Record case := MkCase {
   c_fold : nat;                       (* R > 0: also check BatchRepeat folding over R repeats of an unbatched base *)
   o_events : seq event;               (* observed events *)
   o_cgtols : seq float;               (* tolerance printed by every CG log line *)
+  o_events2 : seq event;              (* events of a second solve on the same object (cached factors) *)
   o_warn : bool                       (* a CG-not-converged warning was observed *)
 }.
 
@@ -122,7 +123,10 @@ Definition path_ok (c : case) : bool :=
   all (fun t => PrimFloat.eqb t (c_cgtol c)) (o_cgtols c) &&
   all2 event_eqb (method_events (c_set c) (c_obs c) (c_rbs c) (c_bb c) (solver_cols (case_cls c) lo (c_cols c))
                                 (case_cls c) (case_method c))
-       (o_events c).
+       (o_events c)
+  && all2 event_eqb (method_events_again (c_set c) (c_obs c) (c_rbs c) (c_bb c) (solver_cols (case_cls c) lo (c_cols c))
+                                (case_cls c) (case_method c))
+       (o_events2 c).
 
 (* per-member verdict: 0 ok, otherwise the reason code *)
 Definition member_code (c : case) (m : member) : nat :=
@@ -166,7 +170,7 @@ Definition with_spec (c : case) : option case :=
   if all (fun m => isSome (m_spec m)) (c_members c) && (0 < size (c_members c))%N then
     Some (MkCase (c_set c) (c_obs c) (c_rbs c) (c_bb c) (c_cols c)
                  (map (fun m => MkMem (if m_spec m is Some o then o else m_op m) (m_right m) (m_left m) (m_out m) None) (c_members c))
-                 (c_tol c) (c_cgtol c) (c_fold c) (o_events c) (o_cgtols c) (o_warn c))
+                 (c_tol c) (c_cgtol c) (c_fold c) (o_events c) (o_cgtols c) (o_events2 c) (o_warn c))
   else None.
 
 Definition case_codes0 (c : case) : seq nat :=
